@@ -76,11 +76,33 @@ def main():
         g = Gen(rng, vars_=vs, S=S, ops=ops, ivs=[(0, 0), (0, 1), (1, 2), (0, 3)])
         g.atom = lambda g=g: ia_atoms(rng, g)
         phi = g.formula(rng.choice([0, 1, 1, 2, 3]))
+        shaped = len(vs) > 1 and rng.random() < 0.08
+        if shaped:
+            # one arithmetic term as the left operand of two predicates, one of which also mentions a variable of the other kind
+            # (seed C06-h: the variable lists of a shared operand node extended in place)
+            a_, b_ = rng.sample(vs, 2)
+            io[a_], io[b_] = rng.choice([("input", "output"), ("output", "input")])
+            t_ = rng.choice([lambda: bi("mul", var(a_), const(2 * S)) if S == 1 else bi("add", var(a_), var(a_)), lambda: bi("add", var(a_), const(S)),
+                             lambda: un("abs", var(a_)), lambda: bi("sub", var(a_), const(S))])()
+            p1 = pred(rng.choice(g.cmps), t_, var(b_))
+            p2 = pred(rng.choice(g.cmps), t_, const(rng.choice([0, 1, 2]) * S))
+            phi = bi(rng.choice(["or", "and", "implies"]), *((p1, p2) if rng.random() < 0.7 else (p2, p1)))
+            if rng.random() < 0.3:
+                phi = un(rng.choice(["once", "hist", "not"]), phi)
         N = rng.choice([1, 2, 3, 5, 8])
         w = gen_trace(rng, vs, N, S, lo=-2, hi=3)
         mode = {"sem": sem, "io": io}
         o = dt_obj(phi, S, vs, factory="StlDiscreteTimeSpecification", mode=mode, set_io=True,
                    explicit_standard=(sem == "standard" and rng.random() < 0.5))
+        if shaped or rng.random() < 0.12:
+            # the same specification with named sub-formulas and named arithmetic terms (shared nodes)
+            from modular import decompose
+            subs, main_, _cd, _nm = decompose(rng, phi, S, consts=False, arith=True)
+            if subs:
+                if rng.random() < 0.5:
+                    o["subs"] = [s_ + ";" for s_ in subs]; o["text"] = "out = " + main_
+                else:
+                    o["text"] = " ; ".join(subs + ["out = " + main_])
         objs = [o]
         if online:
             evs = [ev_parse()] + [ev_update(t, sample_at(w, t)) for t in range(N)]
@@ -156,6 +178,39 @@ def main():
             # (lagging per-variable batches: some update() calls carry nothing new for a predicate's variables)
             evs = [ev_parse()] + (_c05.staggered_events(rng, w, sc_, 1) if len(vs) > 1 and rng.random() < 0.6 else _c05.schedule_events(w, sc_, 1))
         dcases.append(case([o], evs, kind="ct_on" if online else "ct_off"))
+    # shaped: a predicate that is insensitive under the semantics (it mentions only variables of the other kind) next to a predicate
+    # over another variable, fed by update() calls that alternate between the two variables - the insensitive predicate gets calls
+    # without new samples after calls with new samples (seed C06-g)
+    import c05 as _c05
+    for i in range(n // 8):
+        S = rng.choice([1, 2])
+        sem = rng.choice([s_ for s_ in SEMS if s_ != "standard"])
+        kind_ = "input" if sem.startswith("out") else "output"          # the kind of variable the semantics is insensitive to
+        other = "output" if kind_ == "input" else "input"
+        io = {"x": kind_, "y": rng.choice([kind_, other])}
+        cx, cy = rng.choice([0, 1, 2]) * S, rng.choice([0, 1]) * S
+        px = pred(rng.choice(["ge", "le", "gt", "lt"]), var("x"), const(cx)) if rng.random() < 0.7 else \
+             pred(rng.choice(["ge", "le"]), bi("add", var("x"), var("x")), const(cx))
+        py = pred(rng.choice(["ge", "le", "gt", "lt"]), var("y"), const(cy))
+        phi = bi(rng.choice(["and", "or", "implies", "since"]), *((px, py) if rng.random() < 0.5 else (py, px)))
+        if rng.random() < 0.4:
+            phi = un(rng.choice(["onceT", "histT"]), phi, 0, 1) if rng.random() < 0.3 else un(rng.choice(["once", "hist", "not"]), phi)
+        end = rng.choice([4, 6, 8])
+        w = {v: gen_signal(rng, rng.choice([3, 4, 5]), t0=0, S=S, end=end, lo=-2, hi=3) for v in ("x", "y")}
+        # alternate: a few samples of x, a few of y, ...
+        evs, pos = [ev_parse()], {"x": 0, "y": 0}
+        turn = rng.choice(["x", "y"])
+        while any(pos[v] < len(w[v]) for v in w):
+            if pos[turn] < len(w[turn]):
+                k_ = rng.choice([1, 1, 2])
+                batch = {v: [] for v in w}
+                batch[turn] = w[turn][pos[turn]:pos[turn] + k_]; pos[turn] += k_
+                if rng.random() < 0.3:
+                    batch = {turn: batch[turn]}              # the other variable is left out of the call
+                evs.append(ev_ct("update", batch, 1))
+            turn = "y" if turn == "x" else "x"
+        o = ct_obj(phi, S, ["x", "y"], factory="StlDenseTimeSpecification", mode={"sem": sem, "io": io}, set_io=True)
+        dcases.append(case([o], evs, kind="ct_on"))
     dtr = runner.run_cases(dcases)
     dvs, dgen, ddist = core.validate("C06_dense", dtr, module="TraceCt")
     rep.add_traces(dtr, dvs, dgen, ddist, nontrivial_key=lambda c: c["objs"][0]["text"] + str(c["objs"][0]["mode"]) + str(c["events"][-1]["w"]))
